@@ -14,6 +14,7 @@
 import Ptx.Wire
 import Ptx.Search.Targets
 import Ptx.Search.Inv
+import Ptx.Search.InvQ
 import Ptx.Search.Side
 import Ptx.Drv.Tab
 import Ptx.Gen.All
@@ -54,7 +55,7 @@ def showState (L : LogicData) (s : SState) : String :=
       match sortDedup ((targets L s r bi).map showStep) with
       | [] => none
       | ts => some s!"{bi}/{ruleName L r}={",".intercalate ts}"
-  let inv := match invBad L s with | [] => [] | m :: _ => ["!inv:" ++ m]
+  let inv := match invBad L s ++ invBadQ L s with | [] => [] | m :: _ => ["!inv:" ++ m]
   " ; ".intercalate (items ++ inv)
 
 inductive PEv where
